@@ -156,4 +156,43 @@ theorem scan_append (d : Det) (a b : List Nat) : scan (scan d a) b = scan d (a +
     rw [scanLoop_append a b d hd]
   · simp [hd]
 
+/-! ## what the fixed-length loader hands to the position detection and to the record reader
+
+  `LoaderSrc` (regenerated) names where the bytes of a reader come from.  Its meaning for a file: the
+  `file.Reader` replays the head it keeps, so reading `fp` yields the file from its first byte; `HeadBytes` is a
+  copy of the first `headLen` bytes; `io.ReadAll` and `bytes.NewReader` pass the bytes on. -/
+
+def _root_.Csvq.Gen.Enc.LoaderSrc.bytes (headLen : Nat) (file : List Nat) : LoaderSrc → List Nat
+  | .file => file
+  | .head => file.take headLen
+  | .readAll s => s.bytes headLen file
+  | .bytesReader s => s.bytes headLen file
+
+/-- what a reader gets out of a source that has (not) been read to its end before without being rewound -/
+def readerBytes (headLen : Nat) (file : List Nat) (e : String × LoaderSrc × Bool) : List Nat :=
+  if e.2.2 then [] else e.2.1.bytes headLen file
+
+/-- a source that is the whole file whatever the file is: no `head` in it -/
+def _root_.Csvq.Gen.Enc.LoaderSrc.whole : LoaderSrc → Bool
+  | .file => true
+  | .head => false
+  | .readAll s => s.whole
+  | .bytesReader s => s.whole
+
+theorem _root_.Csvq.Gen.Enc.LoaderSrc.bytes_of_whole (headLen : Nat) (file : List Nat) (s : LoaderSrc)
+    (h : s.whole = true) : s.bytes headLen file = file := by
+  induction s with
+  | file => rfl
+  | head => simp [LoaderSrc.whole] at h
+  | readAll s ih => simpa [LoaderSrc.bytes] using ih (by simpa [LoaderSrc.whole] using h)
+  | bytesReader s ih => simpa [LoaderSrc.bytes] using ih (by simpa [LoaderSrc.whole] using h)
+
+/-- the head is NOT the whole file: a source through `head` loses everything behind `headLen` -/
+theorem _root_.Csvq.Gen.Enc.LoaderSrc.head_loses (headLen : Nat) :
+    ∃ file : List Nat, LoaderSrc.head.bytes headLen file ≠ file :=
+  ⟨List.replicate (headLen + 1) 0, by
+    intro h
+    have := congrArg List.length h
+    simp [LoaderSrc.bytes] at this⟩
+
 end Csvq.EncFacts
